@@ -87,7 +87,7 @@ func (in *Interp) vsymCall(name string, args []Value, c *ssa.CallCommon) []Value
 	case "AssertNear":
 		// |a-b| <= abs + rel*max(|a|,|b|)
 		a, b, abs, rel := args[0].(*Term), args[1].(*Term), args[2].(*Term), args[3].(*Term)
-		in.obligation(strArg(args[4]), "assert", in.nearTerm(a, b, abs, rel))
+		in.obligation2(strArg(args[4]), ts.Eq(a, b), in.nearTerm(a, b, abs, rel))
 		return nil
 	case "Near":
 		a, b, abs, rel := args[0].(*Term), args[1].(*Term), args[2].(*Term), args[3].(*Term)
@@ -97,7 +97,7 @@ func (in *Interp) vsymCall(name string, args []Value, c *ssa.CallCommon) []Value
 		a, b, abs, rel := args[0].(*Term), args[1].(*Term), args[2].(*Term), args[3].(*Term)
 		m := in.fmax(in.fabs(a), in.fabs(b))
 		tol := ts.FOp("fadd", abs, ts.FOp("fmul", rel, m))
-		in.obligation(strArg(args[4]), "assert", ts.FCmp("fle", a, ts.FOp("fadd", b, tol)))
+		in.obligation2(strArg(args[4]), ts.FCmp("fle", a, b), ts.FCmp("fle", a, ts.FOp("fadd", b, tol)))
 		return nil
 	case "Reach":
 		l := strArg(args[0])
